@@ -1963,13 +1963,27 @@ def run(chk: core.Check):
                 "then adds (any object, any mapping syntax) whose only fault is to reach a mode reserved by that history "
                 "(imported herald, declared herald, detector), each to be refused leaving the processor untouched, the "
                 "scenario continuing after a clean refusal; after every accepted add is_mode_connectible must agree with "
-                "heralds/detectors (a disagreement is probed with a real add on that mode); distinct = distinct (sizes, right shape, mapping) "
+                "heralds/detectors (a disagreement is probed with a real add on that mode); plus dictionary mappings written "
+                "through every key form ('port': int, 'port': [modes], 'port': 'port', int: [mode], int: 'port', int: int) "
+                "between left processors and right-hand processors carrying one- and two-mode ports, ~45% with exactly one "
+                "fault (unknown port on either side, imbalanced sizes, an int for a multi-mode port, a port name on a bare "
+                "component, a left mode named twice, one int-keyed item too many); for every dictionary the pairs the "
+                "documentation gives to its items are compared with the closed form of the model (allPairs); after every "
+                "accepted add the ports of the result (both sides: start, size, name, herald, expected) are compared with the "
+                "model's and judged directly (no overlap; a new port sits on the modes wired to a port of that name), the "
+                "mode the carried-over post-selection reads for each right-hand mode is compared with the wiring, and the "
+                "model of in_port_names / out_port_names is compared on the real port lists; distinct = distinct (sizes, right shape, mapping) "
                 "signatures; non-trivial = a non-consecutive or non-monotone mapping of >= 2 modes")
     chk.assumptions = [
         "matrices of the left processor and of the added object are taken from their own compute_unitary() "
         "(component matrices are C14, circuit products C01); the model predicts the composed matrix exactly from them",
         "PostSelect parsing/evaluation is exqalibur's; conditions are generated as ASTs and rendered fully parenthesised",
-        "non-herald ports of the added processor are compared with the model only (the property does not constrain them)",
+        "which non-herald ports of the added processor are re-attached is compared with the model only (the property "
+        "does not say it); that a re-attached port sits on the modes wired to it and overlaps no other port is judged directly",
+        "a dictionary that gives two values to one left mode (a port name and one of its modes) is not judged by the direct "
+        "oracle — the documentation is silent, the code keeps the last value — model and code are compared with each other",
+        "an int key with a list / port-name value is read as that one left mode (the documented 'keys and values can be "
+        "integers or strings'); the code as found ignores such an item (fixes/C10-intkey-skipped.diff)",
         "the simp-* branch counters classify the inserted segment from the public component list by tracing light "
         "paths; they only show that the generator reaches the shapes, the verdict never depends on them",
     ]
@@ -2002,7 +2016,7 @@ def run(chk: core.Check):
         n_ex += 1
     chk.extra["exhaustive_mappings_cases"] = n_ex
     chk.exhaustive = False   # the mapping space for <= 4 modes is complete, the right-hand sides are sampled
-    n = chk.pick(700, 16000)
+    n = chk.pick(700, 12000)
     max_cs = 6
     for i in range(n):
         scn = prepare(gen_scenario(rng, max_cs, malformed=(rng.random() < 0.12)), rng)
@@ -2025,7 +2039,7 @@ def run(chk: core.Check):
             chk.count("generator", "invalid-construction")
     # dictionary mappings written through every key form (port names on either side, lists, int keys with list /
     # port-name values), ~45% with one fault; left and right objects carry one- and two-mode ports
-    n_d = chk.pick(450, 5000)
+    n_d = chk.pick(450, 3500)
     for i in range(n_d):
         try:
             scn = prepare(gen_scenario_dict(rng, max_cs), rng)
@@ -2037,7 +2051,7 @@ def run(chk: core.Check):
             chk.count("generator", "invalid-construction")
     # right-hand processors whose content the automatic simplification of the inserted segment rewrites
     # (phase shifters around PERMs that are not self-inverse, adjacent PERMs, nested compositions)
-    n_s = chk.pick(500, 5000)
+    n_s = chk.pick(500, 4000)
     for i in range(n_s):
         scn = prepare(gen_scenario_simpl(rng, max_cs), rng)
         try:
